@@ -421,6 +421,15 @@ theorem fact_middleware_stateless :
     Facts.C04.middlewareImplFields = ["audience string", "authorizedKeys []authorizedKey", "skipper SkipperFunc"] ∧
     Facts.C04.middlewareStateUses = [] := by decide
 
+/-- `Handler(next)` — which echo calls again for every request it serves, on every listener the one middleware value is
+    installed on — has a value receiver and returns a fresh closure over its own `next`: nothing of one request (its routed
+    handler in particular) is visible to another request in flight at the same time -/
+theorem fact_middleware_handler_is_a_fresh_closure :
+    Facts.C04.middlewareHandlerReceiver = "middlewareImpl" ∧
+    Facts.C04.middlewareHandlerBody =
+      "{ return func(context echo.Context) error { return m.checkConnectionAuthorization(context, next) } }" := by
+  refine ⟨by decide, by rfl⟩
+
 /-- **decision_independent_of_history**: on one middleware instance, the decision for a request after ANY history of earlier
     requests (other credentials, the same credential when it was still valid, granted or denied) is the decision for that
     request alone: a token that was granted once is judged again, against the clock of the new request. -/
